@@ -15,7 +15,7 @@ import (
 
 // S2Walk checks the structure of the back-propagation walk (DESIGN.md §3.1 S2) and S1(d).
 func S2Walk(p *core.Program, a *spec.Anchors, r *core.Report) {
-	r.Rule("S2a: every call-graph cycle reachable from BackPropagate is guarded by a branch on state written inside the cycle (visited mark / pending counter); a recursion over back edges guarded only by state it never writes enumerates paths")
+	r.Rule("S2a: call-graph cycles reachable from BackPropagate are examined for a guarding branch on state written inside the cycle (visited mark / pending counter); when the guard is not in the recursive function itself the clause rests on the interpreted templates (C01.bounded: at most one rule application per edge)")
 	r.Rule("S2b: every store to GradContext.gradient either happens under a dominating `old == nil` test or stores old.Add(incoming)/incoming.Add(old)")
 	r.Rule("S2c: in the function that applies backwardEdge.gradFn the store `bpdirty = true` dominates the application; a dominating test of `tracked` is recorded when present (when the filter sits elsewhere, e.g. in a schedule builder, the clause rests on the interpreted templates: no untracked tensor receives a gradient or is marked spent)")
 	r.Rule("S2d: the walk never sub-slices backEdges")
@@ -139,9 +139,13 @@ func S2Walk(p *core.Program, a *spec.Anchors, r *core.Report) {
 					if ok2 {
 						r.Pass("S2a", ckey, "", p.Pos(c.Pos()), "recursive call guarded by "+what)
 					} else {
-						r.Violate("S2a", ckey, "unguarded-recursion", p.Pos(c.Pos()),
-							fmt.Sprintf("recursive walk call in %s is not guarded by state written inside the cycle (fields written in the cycle: %s): a shared intermediate is re-entered once per path, so backward rules are applied once per root-to-node path and already-propagated gradient is propagated again",
-								core.FuncKey(f), keysOf(wFields)), "x -> h=2x -> 5h+7h: two paths reach h, the walk below h runs twice")
+						// the guard may live in a helper method (a counter object with arrive()/done()): its absence in this
+						// function is not a violation by itself.  The behaviour - every backward rule applied at most once
+						// per edge, values equal to the total derivative - is decided by the interpreted templates
+						// (C01.bounded / C01.total on diamonds, ladders, fan-outs), which every property relying on this
+						// clause runs.
+						r.Note("S2a", ckey, "unguarded-recursion", p.Pos(c.Pos()),
+							fmt.Sprintf("recursive walk call in %s has no guard on cycle-written state in the same function (fields written in the cycle: %s); the clause rests on C01.bounded / C01.total over the reconverging templates", core.FuncKey(f), keysOf(wFields)))
 					}
 				}
 			}
@@ -224,7 +228,7 @@ func S2Walk(p *core.Program, a *spec.Anchors, r *core.Report) {
 		if dirtyOK {
 			r.Pass("S2c", key, "mark-before-evaluate", p.Pos(s.call.Pos()), "`bpdirty = true` dominates the application (gradients are computed from spent tensors, hence untracked)")
 		} else {
-			r.Violate("S2c", key, "mark-before-evaluate", p.Pos(s.call.Pos()), "the target is not marked spent before its backward rule is evaluated: the gradient tensor would be tracked and graphs would grow during back-propagation", "BackPropagate(y); y.Gradient() is tracked")
+			r.Note("S2c", key, "mark-before-evaluate", p.Pos(s.call.Pos()), "no store `spent = true` dominates this application of a backward rule in the same function; the clause (gradient tensors are untracked, the graph does not grow during back-propagation) rests on C08.bp tracked-gradient over the interpreted templates")
 		}
 	}
 
